@@ -292,6 +292,9 @@ def note_alignment_from_matchfile(mf: MatchFile) -> List[dict]:
                 ornament_type = "trill"
             elif isinstance(line, MatchOrnamentNoteV1):
                 ornament_type = line.OrnamentType
+                if isinstance(ornament_type, (list, tuple)) and len(ornament_type) == 1:
+                    # a single type is reported as in the other versions: a string
+                    ornament_type = ornament_type[0]
             else:
                 ornament_type = "generic_ornament"
             result.append(
